@@ -191,7 +191,7 @@ def gen_level_code(level, var, mode, ind, uid):
         call = '%s.%s(c)' % (var, g['name']) if use_c else '%s.%s()' % (var, g['name'])
         L.append('%s{ auto %s = %s;' % (ind, gv, call))
         if enc:
-            L.append('%s  { using NT = typename decltype(%s)::sbe_size_type; sbepp::fill_group_header(%s, NT{static_cast<typename NT::value_type>(tq.num())}); }' % (ind, gv, gv))
+            L.append('%s  { using NT = typename decltype(%s)::sbe_size_type; auto gh = sbepp::fill_group_header(%s, NT{static_cast<typename NT::value_type>(tq.num())}); if(sbepp::addressof(gh) != sbepp::addressof(%s)) { gd::bad_header_view = true; } }' % (ind, gv, gv, gv))
         else:
             if use_c:
                 L.append('%s  out.push_back(pfx + "%s:n=" + std::to_string(static_cast<unsigned long long>(%s.size())));' % (ind, g['name'], gv))
@@ -290,7 +290,7 @@ def gen_driver(pkg, layout):
         for mode in ('enc', 'enccur'):
             src.append('static std::size_t %s_%s(%s<char> m, gd::tokens& tq, gd::span buf) {' % (mode, n, cls))
             src.append('  std::string pfx; (void)buf;')
-            src.append('  sbepp::fill_message_header(m);')
+            src.append('  { auto mh = sbepp::fill_message_header(m); if(sbepp::addressof(mh) != sbepp::addressof(m)) { gd::bad_header_view = true; } }')
             if mode == 'enccur':
                 src.append('  auto c = sbepp::init_cursor(m);')
             src += gen_level_code(m['level'], 'm', mode, '  ', uid)
